@@ -399,7 +399,7 @@ var c12Alpha = []string{"{", "}", "[", "]", ":", ",", `"`, `\`, "/", "u", "b", "
 func c12Run(r *mon.Run) {
 	verifhook.SetScanProbes(true)
 	// (1) exhaustive byte strings with dead-prefix pruning
-	L := r.Pick(5, 7)
+	L := r.Pick(6, 7)
 	pruned := int64(0)
 	k := 0
 	gen.TokensSharded(c12Alpha, L, r.Shard, mon.LogicalShards, func(s []byte, n int) bool {
@@ -474,7 +474,7 @@ func init() {
 			stdjson.Unmarshal(raw, &c)
 			c12Doc(r, c.Doc, c.Trailing)
 		},
-		Rule:               "every byte string over a 31-symbol JSON alphabet ({ } [ ] : , quote backslash / u b 0 1 9 - + . e E t r f a l s n space LF é 0x1f 0x7f) up to length 5 (quick) / 7 (thorough), pruned only below prefixes that both the library and encoding/json reject because of an offending byte, plus generated documents (depth <= 7, all escape forms, random blanks) and their byte mutations / trailers; each text is checked in strict and trailing mode: Check() vs encoding/json.Valid resp. a streaming Decoder, Len(), and for accepted texts the NextLexeme stream (nesting, spans, literal coverage) and the token tree vs encoding/json's. distinct_nontrivial = distinct texts (hashed).",
+		Rule:               "every byte string over a 31-symbol JSON alphabet ({ } [ ] : , quote backslash / u b 0 1 9 - + . e E t r f a l s n space LF é 0x1f 0x7f) up to length 6 (quick) / 7 (thorough), pruned only below prefixes that both the library and encoding/json reject because of an offending byte, plus generated documents (depth <= 7, all escape forms, random blanks) and their byte mutations / trailers; each text is checked in strict and trailing mode: Check() vs encoding/json.Valid resp. a streaming Decoder, Len(), and for accepted texts the NextLexeme stream (nesting, spans, literal coverage) and the token tree vs encoding/json's. distinct_nontrivial = distinct texts (hashed).",
 		MinNontrivialQuick: 100000, MinNontrivialThorough: 1000000,
 		Assumptions: []string{"encoding/json (Valid, Decoder) is the independent RFC 8259 decoder", "invalid UTF-8 inside strings is not judged differently from encoding/json (which accepts it)",
 			"trailing mode reference: accepted iff a streaming json.Decoder decodes a first value"},
